@@ -254,6 +254,21 @@ def keep_socket_case(item):
     return rec
 
 
+def dc_case(item):
+    """Delegated-credential shapes (from C05) under the C08 oracle: every
+    rejection is a fatal alert on the wire, the client closed, the session
+    not resumable."""
+    from . import c05
+    r = c05.dc_run(item, prepare=lambda pair: mark_alerts(pair, "C"))
+    if r is None:
+        return None
+    name, shape, accept, pair, out, chain = r
+    sig, fails = judge(pair, out, "C", None, 0, 0)
+    if accept and out["C"].status != "ok":
+        fails.append(({"kind": "honest-failed"}, repr(out["C"].sig())))
+    return name, shape, sig, fails
+
+
 def _hs(t, body):
     return bytes([t]) + len(body).to_bytes(3, "big") + bytes(body)
 
@@ -1247,7 +1262,7 @@ def run(res, tier, seed):
         "every field boundary (with and without corrected header), trailing "
         "and stray bytes; semantic: hand-written parsable-but-unexpected "
         "values (DH/ECDH parameters, extensions, certificates, compressed "
-        "certificates incl. bombs); record level: all 256 first bytes, "
+        "certificates incl. bombs, delegated credentials); record level: all 256 first bytes, "
         "empty / oversized records, SSLv2 headers; post-handshake: NST, "
         "KeyUpdate, CertificateRequest, PHA flight, heartbeat; every message "
         "replaced / cut with the victim keeping its socket "
@@ -1286,6 +1301,22 @@ def run(res, tier, seed):
     res.section("keep_socket", scenario_roles=len(items), executions=nk,
                 note="closeSocket=False on the victim; alert must be on the "
                      "wire when the failing call returns")
+    from . import c05
+    ndc = 0
+    for r in pmap(dc_case, [(c, seed) for c in c05.dc_cases(tier)]):
+        if r is None:
+            continue
+        name, shape, sig, fails = r
+        ndc += 1
+        res.count()
+        res.outcome(("dc", shape, sig))
+        for (k, text) in fails:
+            k = dict(k)
+            k["case"] = "delegated-credential"
+            k["shape"] = shape
+            res.violation(k, {"case": name, "fail": text},
+                          {"delegated_credential": name})
+    res.section("delegated_credentials", cases=ndc)
     DER_DEPTH[0] = 4 if tier == "quick" else 9
     cases = semantic_cases()
     ns = 0
